@@ -248,15 +248,25 @@ class AsyncIterClose(AsyncIter):
 
 
 class AsyncFileNoClose:
-    def __init__(self, log, chunks, raise_at, yieldy):
+    """none_reads: chunk indices before which one read() answers None ('no data available yet', as a
+    non-blocking raw stream does - io.RawIOBase.read); index len(chunks) = just before EOF."""
+
+    def __init__(self, log, chunks, raise_at, yieldy, none_reads=()):
         self.log = log
         self.cur = _Cursor(log, chunks, raise_at)
         self.yieldy = yieldy
+        self.none_pending = set(none_reads or ())
 
     async def read(self, size=-1):
         if self.yieldy:
             await asyncio.sleep(0)
         self.log.sizes.append(size)
+        if not self.cur.rest and self.cur.i in self.none_pending:
+            self.none_pending.discard(self.cur.i)
+            self.log.begun = True
+            self.log.reads += 1
+            self.log.none_reads = getattr(self.log, 'none_reads', 0) + 1
+            return None
         while True:
             c = self.cur.next_chunk(size if size is not None and size >= 0 else None)
             if c is None:
@@ -266,8 +276,8 @@ class AsyncFileNoClose:
 
 
 class AsyncFile(AsyncFileNoClose):
-    def __init__(self, log, chunks, raise_at, yieldy):
-        super().__init__(log, chunks, raise_at, yieldy)
+    def __init__(self, log, chunks, raise_at, yieldy, none_reads=()):
+        super().__init__(log, chunks, raise_at, yieldy, none_reads)
         log.has_close = True
 
     async def close(self):
@@ -311,9 +321,9 @@ def make_stream(st, log):
     if kind == 'aiter_close':
         return AsyncIterClose(log, chunks, raise_at, y)
     if kind == 'afile':
-        return AsyncFile(log, chunks, raise_at, y)
+        return AsyncFile(log, chunks, raise_at, y, st.get('none_reads'))
     if kind == 'afile_noclose':
-        return AsyncFileNoClose(log, chunks, raise_at, y)
+        return AsyncFileNoClose(log, chunks, raise_at, y, st.get('none_reads'))
     raise ValueError(kind)
 
 
@@ -711,7 +721,9 @@ def summary(res, stack):
 def classify(kind, r):
     """Narrow classifiers for defects recorded in known_findings.json."""
     code = M.status_code(r['status'])
-    custom_line = (r['stack'] == 'wsgi' and r['status'][0] == 'line' and code in M.BODILESS and
+    custom_line = (r['stack'] == 'wsgi' and (r['status'][0] == 'line' or (r['status'][0] == 'bytes' and
+                                                                          ' ' in r['status'][1]))
+                   and code in M.BODILESS and
                    r['status'][1] not in ('100 Continue', '101 Switching Protocols', '204 No Content',
                                           '304 Not Modified'))
     if custom_line and kind in ('body-on-bodiless', 'content-type-on-typeless'):
@@ -1030,7 +1042,7 @@ def status_class(r):
 
 def nblocks(st):
     if st['kind'] in FILE_KINDS:
-        return sum(-(-len(c) // 8192) for c in st['chunks'] if c)
+        return sum(-(-len(c) // 8192) for c in st['chunks'] if c) + len(st.get('none_reads') or ())
     return len(st['chunks'])
 
 
@@ -1064,6 +1076,8 @@ def note_coverage(rec, r, res, obs):
     if st is not None and src == 'stream' and not M.is_bodiless(r):
         kind = st['kind']
         rec.count('streamed.%s.%s' % (stack, kind))
+        if any(getattr(log, 'none_reads', 0) for log in obs.logs):
+            rec.count('streamed.asgi.read_answered_none')
         n = len(st['chunks'])
         nb = nblocks(st)
         k = st.get('raise_at')
@@ -1106,7 +1120,10 @@ STATUSES = [
     ['line', '200 OK'], ['line', '404 Not Found'], ['line', '204 No Content'], ['line', '304 Not Modified'],
     ['line', '100 Continue'], ['line', '101 Switching Protocols'], ['line', '200 Fine, thanks'],
     ['line', '204 Nothing Here'], ['line', '304 Same As Before'], ['line', '101 Upgrading'],
-    ['digits', '204'], ['digits', '304'], ['digits', '503'],
+    ['digits', '204'], ['digits', '304'], ['digits', '503'], ['digits', '299'], ['digits', '799'],
+    ['bytes', '200 OK'], ['bytes', '404 Not Found'], ['bytes', '702 Emacs'], ['bytes', '204 No Content'],
+    ['bytes', '304 Unchanged'], ['bytes', '200'], ['bytes', '204'], ['bytes', '304'], ['bytes', '101'],
+    ['bytes', '299'], ['bytes', '598'],
     ['enum', 418], ['enum', 204], ['enum', 304], ['enum', 100], ['enum', 200],
 ]
 METHODS = ['GET', 'HEAD', 'POST', 'OPTIONS']
@@ -1143,6 +1160,8 @@ def grid_cases(stack):
                         kind = kinds[n % len(kinds)]
                         chunks = [c for c in GRID_CHUNKS if c or kind not in FILE_KINDS]
                         r['stream'] = {'kind': kind, 'chunks': chunks, 'raise_at': None}
+                        if stack == 'asgi' and kind in FILE_KINDS and (n // len(kinds)) % 2:
+                            r['stream']['none_reads'] = [0, 2]
                         if stack == 'wsgi' and kind in FILE_KINDS:
                             r['fw'] = bool((n // len(kinds)) % 2)
                     if sub.get('sse'):
@@ -1225,10 +1244,12 @@ def fault_cases(stack, big):
                     base = {'stack': stack, 'method': 'GET', 'status': ['int', 200], 'text': None, 'data': None,
                             'media': ['unset'], 'sse': None, 'ct': None, 'cl': None, 'fw': fw}
 
-                    def mk(raise_at, fail_at, set_len=None, method='GET'):
+                    def mk(raise_at, fail_at, set_len=None, method='GET', none_reads=None):
                         st = {'kind': kind, 'chunks': chunks, 'raise_at': raise_at, 'yieldy': yieldy}
                         if set_len is not None:
                             st['set_len'] = set_len
+                        if none_reads:
+                            st['none_reads'] = none_reads
                         return dict(base, stream=st, fail_at=fail_at, method=method)
                     yield mk(None, None)
                     yield mk(None, None, set_len=sum(len(c) for c in chunks))
@@ -1244,6 +1265,16 @@ def fault_cases(stack, big):
                         yield mk(1, 1)
                         yield mk(n, 1)
                         yield mk(0, 2)
+                    if stack == 'asgi' and kind in FILE_KINDS and chunks != [b'x' * 20000]:
+                        # a read() that answers None ('no data yet') before any chunk, and before EOF
+                        patterns = [[i] for i in range(n + 1)] + [list(range(n + 1))]
+                        for nr in patterns:
+                            yield mk(None, None, none_reads=nr)
+                            yield mk(None, None, none_reads=nr, method='HEAD')
+                            for k in range(n + 1):
+                                yield mk(k, None, none_reads=nr)
+                            for f in range(0, n + len(nr) + 3):
+                                yield mk(None, f, none_reads=nr)
 
 
 def render_fail_cases(stack):
@@ -1376,6 +1407,8 @@ def gen_recipe(rng):
             st['set_len'] = rng.choice([sum(len(c) for c in st['chunks']), 0, 5])
         if stack == 'asgi':
             st['yieldy'] = rng.random() < 0.5
+            if kind in FILE_KINDS and rng.random() < 0.35:
+                st['none_reads'] = sorted(rng.sample(range(len(st['chunks']) + 1), rng.randint(1, len(st['chunks']) + 1)))
         r['stream'] = st
         if stack == 'wsgi':
             r['fw'] = rng.random() < 0.5
@@ -1456,6 +1489,10 @@ def run(rec):
         'render-time failures (unserializable media, unsupported type, raising handler / render_body / file_wrapper): '
         'only protocol validity and length consistency of the answer are demanded, not a non-empty error body (C04)',
         'after http.disconnect an SSE emitter may be abandoned early; a terminating body event is still owed',
+        'byte-string statuses (line or bare code) are accepted input (falcon\'s suite assigns resp.status = b\'200 OK\'); '
+        'other spellings int() would accept (float, signs, underscores, whitespace) are not generated',
+        'read() of an ASYNC file-like may answer None (no data yet, io.RawIOBase convention; falcon normalises it to an '
+        'empty chunk); not generated for sync WSGI file-likes (blocking files; the wrapper may be the server\'s)',
     ]
     quick = rec.tier == 'quick'
     idx = 0
@@ -1518,7 +1555,7 @@ def run(rec):
         rec.floor('rc.' + rc, 50)
     for via in ('responder', 'mw', 'sink'):
         rec.floor('via.' + via, 20)
-    for sk in ('int', 'line', 'digits', 'enum'):
+    for sk in ('int', 'line', 'digits', 'enum', 'bytes'):
         rec.floor('status_kind.' + sk, 50)
     rec.floor('random.cases', 200)
     rec.floor('prerender', 20)
@@ -1529,6 +1566,7 @@ def run(rec):
             for cl in ('cl', 'nocl'):
                 rec.floor('render_fail.%s.%s.%s' % (stack, cause, cl), 4)
     rec.floor('mon.render_fail.content_length_equals_body', 100)
+    rec.floor('streamed.asgi.read_answered_none', 50)
     rec.floor('sse.disconnect.truncated', 10)
     rec.floor('sse.disconnect.full', 10)
     rec.floor('asgi.disconnect_after', 50)
